@@ -277,7 +277,7 @@ def interleavings(blocks, cap, r):
     return [list(x) for x in seen], False
 
 
-def gen_conc_scenarios(seed, n, kinds=None):
+def gen_conc_scenarios(seed, n, kinds=None, focus=None):
     r = random.Random(seed * 101 + 3)
     sc = []
     for i in range(n):
@@ -366,7 +366,7 @@ def gen_conc_scenarios(seed, n, kinds=None):
                 burst[c] = [L(c, r.choice(menus[c]))]
             order = list(range(1, k + 1))
             r.shuffle(order)
-            if r.random() < 0.6:
+            if r.random() < (0.95 if focus else 0.6):
                 # a command that checks something, queued BEFORE a command of another connection that invalidates
                 # exactly that check (the pair a non-atomic handler gets wrong)
                 pairs = [((2, "TOPIC #c :t2"), (1, "MODE #c +t")), ((2, "TOPIC #c :t2"), (1, "KICK #c n2")),
@@ -381,7 +381,19 @@ def gen_conc_scenarios(seed, n, kinds=None):
                          ((2, "NICK x2"), (1, "MODE #c +o n2")), ((2, "NICK x2"), (1, "KICK #c n2")),
                          ((3, "JOIN #c"), (2, "JOIN #c")), ((2, "TOPIC #c :t2"), (1, "MODE #c -o n2")),
                          ((2, "NAMES #c"), (1, "MODE #c +s")), ((3, "WHOIS n2"), (2, "MODE n2 +i")),
-                         ((3, "PRIVMSG n2 :p3"), (2, "NICK x2")), ((3, "PRIVMSG n2 :p3"), (2, "AWAY :gone"))]
+                         ((3, "PRIVMSG n2 :p3"), (2, "NICK x2")), ((3, "PRIVMSG n2 :p3"), (2, "AWAY :gone")),
+                         ((1, "KICK #c n2"), (2, "PART #c")), ((1, "KICK #c n2"), (2, "NICK x2")),
+                         ((2, "KICK #c n3"), (1, "MODE #c +a n3")), ((1, "KICK #c n2"), (2, "QUIT :bye")),
+                         ((2, "NICK x9"), (1, "NICK x9")), ((1, "NICK x9"), (3, "NICK x9")),
+                         ((2, "PART #c"), (1, "PART #c")), ((1, "MODE #c +o n2"), (2, "PART #c")),
+                         ((1, "MODE #c +v n2"), (2, "NICK x2")), ((1, "INVITE n3 #c"), (3, "JOIN #c")),
+                         ((3, "JOIN #c,#d"), (1, "MODE #c +l 2")), ((2, "JOIN #d"), (3, "JOIN #d")),
+                         ((1, "MODE #c +k sesame"), (1, "MODE #c -k sesame")), ((2, "AWAY :gone"), (3, "PRIVMSG n2 :p3")),
+                         ((1, "OPER oper operpw"), (1, "KILL n2 :x")), ((2, "MODE n2 +i"), (3, "WHO n2"))]
+                pairs = [p for p in pairs if p[0][0] != p[1][0]]
+                if focus:
+                    fp = [p for p in pairs if p[0][1].split(" ")[0] in focus or p[1][1].split(" ")[0] in focus]
+                    pairs = fp or pairs
                 (ca, ta), (cb, tb) = r.choice(pairs)
                 burst[ca], burst[cb] = [L(ca, ta)], [L(cb, tb)]
                 rest = [c for c in order if c not in (ca, cb)]
@@ -472,12 +484,12 @@ def parse_conc_impl(text):
     return res
 
 
-def run_conc(tier, seed, log, kinds=None, n_override=None):
+def run_conc(tier, seed, log, kinds=None, n_override=None, focus=None):
     from . import canon
     os.makedirs(runner.WORK, exist_ok=True)
     r = random.Random(seed)
     n = n_override or (24 if tier == "quick" else 400)
-    scenarios = gen_conc_scenarios(seed, n, kinds)
+    scenarios = gen_conc_scenarios(seed, n, kinds, focus)
     violations = []
     n_inter = 0
     n_exh = 0
@@ -863,6 +875,41 @@ def run(pid, tier, seed, log):
                                    "a handler contains an unwrap/expect/panic!/checked-subtraction/slice site that the model does not represent")
         out["coverage"]["panic_sites"] = info
         out["violations"] += viol
+    # every property whose theorems speak about a mutating handler as ONE atomic step: the lock structure of the
+    # handlers in its footprint is part of the correspondence (model handler = one write-lock section), and a few
+    # lock-queue schedules (hook H2) around exactly these commands look for a concrete failing schedule
+    if pid in LOCK_FOOTPRINT:
+        verbs = LOCK_FOOTPRINT[pid]
+        info, viol = run_extractor("lock_map.py", "lock-structure-changed",
+                                   "the lock/await structure of a handler in this property's footprint differs from the one-section handler the theorems are about")
+        try:
+            table = json.load(open(runner.V + "/tables/lock_map.json"))
+            hs = {h for v, h in table["dispatch"] if v in verbs} | {"remove_user" if "QUIT" in verbs else "-"}
+        except Exception:
+            hs = set()
+        if viol:
+            d = [x for x in info.get("differences", []) if any(("::" + h + ":") in x or x.split(":")[0].endswith(h) or (h + ":") in x for h in hs)]
+            if d and not any(v[0] == "lock-structure-changed" for v in out["violations"]):
+                viol[0][1]["differences"] = d
+                out["violations"] += viol
+        out["coverage"]["lock_map_footprint"] = {"handlers": sorted(hs), "differences": info.get("differences", [])[:5]}
+        o3 = run_conc(tier, seed + 11, log, kinds=["gated"], n_override=(10 if tier == "quick" else 200), focus=verbs)
+        out["coverage"].update({"gatedfp_" + k: v for k, v in o3["coverage"].items() if k not in ("rule",)})
+        out["violations"] += o3["violations"]
     os.makedirs(runner.WORK, exist_ok=True)
     out["violations"] += run_directed(pid, log)
     return out
+
+
+LOCK_FOOTPRINT = {
+    "C02": {"NICK"},
+    "C04": {"JOIN", "PART", "KICK", "NICK", "QUIT"},
+    "C07": {"JOIN"},
+    "C08": {"MODE"},
+    "C09": {"KICK", "TOPIC", "INVITE"},
+    "C10": {"PRIVMSG", "NOTICE"},
+    "C11": {"OPER", "MODE", "KILL", "WALLOPS"},
+    "C15": {"NICK"},
+    "C16": {"JOIN", "PART", "KICK", "QUIT"},
+    "C19": {"MODE", "OPER", "NICK", "QUIT"},
+}
